@@ -74,6 +74,8 @@ def units(tier):
     from checks import c14
 
     for u in c14.units(tier):
+        if u["shape"].get("kind") == "long":
+            continue  # (C13/C14's own long sentence)
         us.append({"name": "gram_" + u["name"], "shape": {"kind": "gram", "c14": u["shape"]}})
     return us
 
